@@ -1,1 +1,28 @@
 //! Verification hooks for the `substream` domain (`--cfg litep2p_verif` only).
+//!
+//! `Substream::new_tcp` and `transport::tcp::Substream` are `pub(crate)`; this constructor
+//! wraps one end of a yamux stream (e.g. of an in-memory yamux connection pair) into the real
+//! [`crate::substream::Substream`] exactly like `TcpConnection` does for a negotiated substream.
+
+use crate::{
+    codec::ProtocolCodec, substream::Substream, transport::tcp, types::SubstreamId, BandwidthSink,
+    PeerId,
+};
+
+use tokio_util::compat::FuturesAsyncReadCompatExt;
+
+/// Wrap `stream` into a [`Substream`] that frames messages with `codec`.
+pub fn substream_over_yamux(
+    stream: crate::yamux::Stream,
+    codec: ProtocolCodec,
+    substream_id: usize,
+) -> Substream {
+    let socket = FuturesAsyncReadCompatExt::compat(stream);
+    let io = tcp::Substream::new(socket, BandwidthSink::new(), None);
+    Substream::new_tcp(PeerId::random(), SubstreamId::from(substream_id), io, codec)
+}
+
+/// Size of the initial read buffer of a fresh [`Substream`] (read-only projection).
+pub fn initial_read_buffer_len(substream: &Substream) -> usize {
+    substream.verif_read_buffer_len()
+}
